@@ -1,1 +1,416 @@
-PROPERTY='C05'
+"""C05 -- a failed or refused atomic_save leaves the destination intact and cleans up.
+
+Engine: simfs with errno injection, short writes, a persistent disk-full state and a
+second party creating files at the wrong moment.  For every workload the fault-free
+run is recorded; then every single fault of the alphabet is injected at every event
+it applies to (enumeration), plus seeded pairs of faults (the second fault placed in
+the run that already contains the first).
+"""
+import errno
+import random
+
+from simkit import core, shrinkers
+from engines import simfs
+from . import savelib as S
+
+PROPERTY = 'C05'
+ENGINE = 'simfs'
+LEVEL = 'fault_enumeration'
+SOURCE_FILES = ['boltons/fileutils.py']
+SIM_TIME_UNIT = 'seam events (file-system calls and write/flush/close on the part file)'
+TIERS = {
+    'quick': {'budget_s': 20, 'min_runs': 2000, 'block': 50, 'fixed_block': 8},
+    'thorough': {'budget_s': 600, 'min_runs': 150000, 'block': 200, 'fixed_block': 8},
+}
+RULE = ('One evaluation = one workload (overwrite, overwrite_part, rm_part_on_exc, text_mode, file_perms, '
+        'umask, buffering, initial destination and part file, body that may raise) with EVERY single fault of the '
+        'alphabet injected at every event it applies to (coverage.fault_runs), every second-party file creation '
+        'between setup and publication, and a seeded sample of fault pairs (all pairs for the fixed matrix in the '
+        'thorough tier). Non-trivial = a faulted run in which the fault fired while the part file existed; '
+        'distinct = distinct (configuration class, faulted call, fault, phase) tuples.')
+COMPONENTS = {'real': ['boltons.fileutils.AtomicSaver / atomic_save / atomic_rename / replace / set_cloexec',
+                       'CPython io.BufferedRandom and io.TextIOWrapper (the part file object)'],
+              'stub': ['os module (engines.simfs.SimOS)', 'fcntl module', 'the raw file (SimRaw)', 'the second party']}
+ASSUMPTIONS = ['fault alphabet = exactly the steps C05 names: open(part), chmod(part), raw write (from body, flush or close), fsync, close, rename, link, and unlink(part) during clean-up as a second fault; stat/lexists/fcntl/fdopen are not faulted',
+               'close() releases the descriptor even when it reports EIO (Linux)',
+               'a failure after publication on the no-clobber path (unlink(part) after a successful link) may surface as an exception with the new content in place',
+               'the part file may remain when the clean-up unlink itself was made to fail, or when it pre-existed and made setup refuse (then it must be untouched)']
+
+E = errno
+FAULTS = {
+    'open': [('errno', E.EACCES), ('errno', E.ENOSPC), ('errno', E.EMFILE), ('errno', E.EROFS)],
+    'chmod': [('errno', E.EPERM)],
+    'raw.write': [('errno', E.ENOSPC), ('errno', E.EIO), ('errno', E.EDQUOT), ('short', 1), ('short', 3), ('disk-full', 0)],
+    'fsync': [('errno', E.EIO), ('errno', E.ENOSPC)],
+    'raw.close': [('errno', E.EIO)],
+    'rename': [('errno', E.EACCES), ('errno', E.EPERM), ('errno', E.ENOSPC), ('errno', E.EIO)],
+    'link': [('errno', E.EPERM), ('errno', E.EMLINK)],
+}
+CLEANUP_FAULTS = [('errno', E.EACCES), ('errno', E.EIO)]
+
+
+def setup(root):
+    S.setup(root)
+
+
+def gen_case(rng, tier):
+    case = S.gen_workload(rng, faults=True)
+    case['pair_seed'] = rng.getrandbits(32)
+    case['pairs'] = 6 if tier == 'quick' else 40
+    return case
+
+
+_FIXED = None
+
+
+def fixed_cases(tier):
+    global _FIXED
+    if _FIXED is None:
+        cases = []
+        for overwrite in (True, False):
+            for present in (False, True):
+                for rm in (True, False):
+                    for perms in (None, 0o600):
+                        for text in (False, True):
+                            for raises in (False, True):
+                                body = [['write', 'abc' if text else b'abc'.hex()],
+                                        ['write', ('0123456789' * 2) if text else (b'0123456789' * 2).hex()]]
+                                if raises:
+                                    body.insert(1, ['raise'])
+                                cases.append({'text_mode': text, 'overwrite': overwrite, 'part_file': None,
+                                              'buffering': -1, 'blksize': 8, 'umask': 0o027, 'dest_rel': False,
+                                              'dest_initial': {'data': b'OLD'.hex(), 'mode': 0o664} if present else None,
+                                              'file_perms': perms, 'overwrite_part': False, 'rm_part_on_exc': rm,
+                                              'body': body, 'pair_seed': 7, 'pairs': 10 if tier == 'quick' else 100000})
+        _FIXED = cases
+    return _FIXED
+
+
+def case_size(case):
+    return len(case['body']) + sum(len(s[1]) for s in case['body'] if s[0] == 'write') + \
+        (len(case['faults']) if case.get('faults') is not None else 50)
+
+
+def describe_case(case):
+    return case
+
+
+# ------------------------------------------------------------------------------------------
+
+class Pre:
+    """What the world looked like before the save."""
+
+    def __init__(self, case):
+        _a, self.dest, self.part = S.paths(case)
+        di, pi = case.get('dest_initial'), case.get('part_initial')
+        self.dest_data = bytes.fromhex(di['data']) if di else None
+        self.dest_mode = di['mode'] if di else None
+        self.part_data = bytes.fromhex(pi['data']) if pi else None
+        self.part_mode = pi['mode'] if pi else None
+        self.new = S.new_content(case)
+        self.overwrite = case.get('overwrite', True)
+        self.overwrite_part = case.get('overwrite_part', False)
+        self.rm = case.get('rm_part_on_exc', True)
+        fp = case.get('file_perms')
+        if fp is not None:
+            self.want_mode = fp
+        elif self.dest_mode is not None:
+            self.want_mode = self.dest_mode
+        else:
+            self.want_mode = 0o666 & ~case.get('umask', 0o022)
+        self.body_raises = S.body_raises(case)
+        self.refused_dest = self.dest_data is not None and not self.overwrite
+        self.refused_part = self.part_data is not None and not self.overwrite_part
+
+
+def _fmt(b):
+    return 'absent' if b is None else repr(b[:40])
+
+
+def judge(case, pre, r, faults, out, step, second_party=None, retry=True):
+    """Oracle B1-B7 after the with statement.  faults: list of (kind, occ, fault) that fired."""
+    fs = r.fs
+    dest_now, mode_now = fs.read_path(pre.dest), fs.mode_of(pre.dest)
+    part_now = fs.read_path(pre.part)
+    first = faults[0] if faults else None
+    call = first[0] if first else ('second-party' if second_party else 'none')
+    phase = 'body' if (r.entered and not r.body_done) else ('setup' if not r.entered else 'exit')
+    published = bool(r.sim.binding_changes.get(pre.dest)) and any(p[1] == pre.dest for p in r.sim.publish)
+    errno_faults = [f for f in faults if f[2][0] in ('errno', 'disk-full')]
+    sig = dict(call=call, phase=phase)
+    want_dest, want_mode = pre.dest_data, pre.dest_mode
+    if second_party == 'dest':
+        want_dest, want_mode = b'SECOND PARTY', 0o640
+    expected_failure = (pre.body_raises or pre.refused_dest or pre.refused_part
+                        or (second_party == 'dest' and not pre.overwrite) or second_party == 'part')
+
+    if r.exc is None:
+        # B2: no exception => the save completed
+        must_fail = expected_failure or any(f[2][0] == 'errno' for f in faults if f[0] != 'cleanup-unlink')
+        if must_fail and not (dest_now == pre.new and part_now is None and not expected_failure
+                              and all(f[2][0] != 'errno' for f in faults)):
+            return out.fail('silent-failure', step,
+                            'no exception reached the caller although %s; destination now %s'
+                            % (_why(pre, faults, second_party), _fmt(dest_now)), **sig)
+        if dest_now != pre.new:
+            return out.fail('silent-failure', step,
+                            'the with statement completed but the destination holds %s, not the new content %s (%s)'
+                            % (_fmt(dest_now), _fmt(pre.new), _why(pre, faults, second_party)), **sig)
+        if part_now is not None:
+            return out.fail('part-left-behind', step, 'the save completed but the part file still exists', **sig)
+        ok_modes = {pre.want_mode}
+        if second_party == 'dest' and case.get('file_perms') is None:
+            ok_modes.add(0o640)          # the file being replaced is then the second party's
+        if mode_now not in ok_modes:
+            return out.fail('wrong-permissions', step,
+                            'completed save has mode %o, expected %o (file_perms=%r, replaced file mode=%r, umask=%o)'
+                            % (mode_now, pre.want_mode, case.get('file_perms'), pre.dest_mode, case.get('umask', 0o022)),
+                            **sig)
+        return None
+
+    # an exception escaped
+    if published:
+        # B7: failure after publication: the new content must be in place and complete
+        if dest_now != pre.new:
+            return out.fail('dest-changed', step,
+                            'an exception escaped after publication and the destination holds %s, not %s'
+                            % (_fmt(dest_now), _fmt(pre.new)), **sig)
+        return None
+    # B1
+    if dest_now != want_dest or (want_dest is not None and mode_now != want_mode):
+        return out.fail('dest-changed', step,
+                        'the save failed (%r) but the destination changed: was %s mode %s, now %s mode %s (%s)'
+                        % (r.exc, _fmt(want_dest), _o(want_mode), _fmt(dest_now), _o(mode_now),
+                           _why(pre, faults, second_party)), **sig)
+    # B5: a pre-existing part file that made setup refuse is untouched
+    if pre.refused_part:
+        if part_now != pre.part_data or fs.mode_of(pre.part) != pre.part_mode:
+            return out.fail('part-file-reused', step,
+                            'a pre-existing part file was modified without overwrite_part: %s -> %s'
+                            % (_fmt(pre.part_data), _fmt(part_now)), **sig)
+        return None
+    if second_party == 'part':
+        if part_now != b'SECOND PARTY':
+            return out.fail('part-file-reused', step, "another writer's part file was modified or removed: now %s"
+                            % _fmt(part_now), **sig)
+        return None
+    # B3 / B4
+    cleanup_faulted = any(f[0] == 'cleanup-unlink' for f in faults)
+    ours = part_now is not None and fs.lookup(pre.part) != r.pre_inos.get(pre.part)
+    if part_now is not None and not ours and (part_now != pre.part_data or fs.mode_of(pre.part) != pre.part_mode):
+        return out.fail('part-file-reused', step, 'the pre-existing part file was modified in place: %s -> %s'
+                        % (_fmt(pre.part_data), _fmt(part_now)), **sig)
+    if pre.rm and ours and not cleanup_faulted:
+        return out.fail('part-left-behind', step,
+                        'the save failed (%r; %s) with rm_part_on_exc=True but the part file is still there'
+                        % (r.exc, _why(pre, faults, second_party)), **sig)
+    if retry and pre.rm and not cleanup_faulted:
+        # an immediate fault-free retry must succeed unless it is legitimately refused
+        fs.full = False
+        c2 = dict(case)
+        c2['body'] = [s for s in case['body'] if s[0] != 'raise']
+        r2 = S.run_save(c2, simfs.Plan(), None, fs=fs)
+        refused = fs.read_path(pre.dest) is not None and not pre.overwrite and r2.exc is not None
+        if r2.exc is not None and not refused:
+            return out.fail('retry-fails', step, 'after the failed save (%s) an immediate retry raised %r'
+                            % (_why(pre, faults, second_party), r2.exc), **sig)
+        if r2.exc is None and fs.read_path(pre.dest) != S.new_content(c2):
+            return out.fail('retry-fails', step, 'the retry completed with wrong content', **sig)
+    return None
+
+
+def _o(m):
+    return 'n/a' if m is None else oct(m)
+
+
+def _why(pre, faults, second_party):
+    parts = []
+    if pre.body_raises:
+        parts.append('the body raised')
+    if pre.refused_dest:
+        parts.append('overwrite=False and the destination exists')
+    if pre.refused_part:
+        parts.append('a part file pre-exists and overwrite_part is off')
+    if second_party:
+        parts.append('another process created the %s file mid-save' % second_party)
+    for kind, occ, f in faults:
+        parts.append('%s #%d %s' % (kind, occ, 'short write' if f[0] == 'short' else
+                                   ('disk full from here on' if f[0] == 'disk-full' else errno.errorcode.get(f[1], f[1]))))
+    return '; '.join(parts) or 'nothing went wrong'
+
+
+def _faultable(trace_occ, trace, pre, after=-1):
+    """Yield (event index, kind-label, plan key, fault) for every applicable single fault."""
+    seen_open = False
+    last_link_ok = None
+    for k, ((kind, occ), (_k2, detail)) in enumerate(zip(trace_occ, trace)):
+        if kind == 'open':
+            seen_open = True
+        if k <= after:
+            if kind == 'link':
+                last_link_ok = k
+            continue
+        if kind == 'open' and detail == pre.part:
+            for f in FAULTS['open']:
+                yield k, 'open', (kind, occ), f
+        elif kind == 'chmod' and detail == pre.part:
+            for f in FAULTS['chmod']:
+                yield k, 'chmod', (kind, occ), f
+        elif kind in ('raw.write', 'fsync', 'raw.close'):
+            for f in FAULTS[kind]:
+                yield k, kind, (kind, occ), f
+        elif kind in ('rename', 'link') and detail[1] == pre.dest:
+            for f in FAULTS[kind]:
+                yield k, kind, (kind, occ), f
+        elif kind == 'unlink' and detail == pre.part and seen_open and after >= 0:
+            for f in CLEANUP_FAULTS:
+                yield k, 'cleanup-unlink', (kind, occ), f
+
+
+def _run_faulted(case, pre, plan_faults, labels, log, out, second_party=None, sp_key=None):
+    hooks = None
+    if second_party:
+        def hooks(sim):
+            def act():
+                path = pre.dest if second_party == 'dest' else pre.part
+                if sim.fs.lookup(path) is None:
+                    ino = sim.fs.create(path, 0o777)
+                    ino.mode = 0o640
+                    ino.data.extend(b'SECOND PARTY')
+                    ino.synced = bytes(ino.data)
+                    act.fired = True
+            act.fired = False
+            hooks.act = act
+            return {sp_key: act}
+    r = S.run_save(case, simfs.Plan(faults=plan_faults), log, hooks=hooks)
+    fired = []
+    for (k, kind, f) in r.sim.fired:
+        key = r.sim.occ[k]
+        lab = labels.get(key, kind)
+        fired.append((lab, key[1], f))
+        out.fault('%s:%s' % (lab, f[0] if f[0] != 'errno' else errno.errorcode.get(f[1], str(f[1]))))
+    sp_fired = bool(second_party and hooks.act.fired)
+    if sp_fired:
+        out.fault('second-party-creates-' + second_party)
+    return r, fired, sp_fired
+
+
+def run_case(case):
+    out = core.Outcome()
+    log = core.EventLog(keep=False)
+    pre = Pre(case)
+    fault_runs = 0
+    if case.get('faults') is not None:
+        # explicit (replay / minimised) plan: [[kind, occ, fkind, arg, label], ...] (+ optional second party)
+        plan, labels = {}, {}
+        for kind, occ, fk, arg, lab in case['faults']:
+            plan[(kind, occ)] = (fk, arg)
+            labels[(kind, occ)] = lab
+        sp = case.get('second_party')
+        r, fired, spf = _run_faulted(case, pre, plan, labels, log, out,
+                                     second_party=sp[0] if sp else None,
+                                     sp_key=(sp[1], sp[2]) if sp else None)
+        out.steps = r.sim.n
+        judge(case, pre, r, fired, out, 0, second_party=sp[0] if (sp and spf) else None)
+        if out.violation is not None:
+            out.violation['sig']['faulted'] = bool(case['faults'] or sp)
+        out.digest = log.digest()
+        return out
+
+    base = S.run_save(case, simfs.Plan(), log)
+    out.steps = base.sim.n
+    judge(case, pre, base, [], out, 0)
+    if out.violation is not None:
+        out.violation['sig']['faulted'] = False
+    cfg = [case.get('overwrite', True), case.get('overwrite_part', False), case.get('rm_part_on_exc', True),
+           case.get('text_mode', False), case.get('file_perms') is not None, pre.dest_data is not None,
+           pre.part_data is not None, pre.body_raises]
+    singles = []
+    if out.violation is None:
+        for k, lab, key, f in _faultable(base.sim.occ, base.sim.trace, pre):
+            r, fired, _ = _run_faulted(case, pre, {key: f}, {key: lab}, log, out)
+            fault_runs += 1
+            out.steps += r.sim.n
+            if not fired:
+                continue
+            if r.fs.lookup(pre.part) is not None or lab in ('raw.write', 'fsync', 'raw.close', 'rename', 'link', 'chmod'):
+                out.nontrivial.append(core.h64([cfg, lab, list(f), 'single']))
+            singles.append((k, lab, key, f, r))
+            if judge(case, pre, r, fired, out, k):
+                out.violation['sig']['faulted'] = True
+                out.extra['found_plan'] = [[key[0], key[1], f[0], f[1], lab]]
+                break
+    # second party: another process creates the destination / the part file before event k
+    if out.violation is None:
+        for k, (kind, occ) in enumerate(base.sim.occ):
+            for who in ('dest', 'part'):
+                if who == 'dest' and pre.dest_data is not None:
+                    continue
+                if who == 'part' and (pre.part_data is not None or kind != 'open' or base.sim.trace[k][1] != pre.part):
+                    continue
+                if who == 'dest' and (k == 0 or any(p[0] < k for p in base.sim.publish)):
+                    continue
+                r, fired, spf = _run_faulted(case, pre, {}, {}, log, out, second_party=who, sp_key=(kind, occ))
+                fault_runs += 1
+                out.steps += r.sim.n
+                if not spf:
+                    continue
+                out.nontrivial.append(core.h64([cfg, 'second-party', who, kind]))
+                if judge(case, pre, r, fired, out, k, second_party=who):
+                    out.violation['sig']['faulted'] = True
+                    out.extra['found_plan'] = []
+                    out.extra['found_sp'] = [who, kind, occ]
+                    break
+            if out.violation is not None:
+                break
+    # pairs: the second fault is placed in the run that already contains the first
+    if out.violation is None and singles:
+        rng = random.Random(case.get('pair_seed', 0))
+        budget = case.get('pairs', 6)
+        cand = []
+        for (k1, lab1, key1, f1, r1) in singles:
+            for k2, lab2, key2, f2 in _faultable(r1.sim.occ, r1.sim.trace, pre, after=k1):
+                cand.append((k1, lab1, key1, f1, k2, lab2, key2, f2))
+        if len(cand) > budget:
+            cand = rng.sample(cand, budget)
+        for (k1, lab1, key1, f1, k2, lab2, key2, f2) in cand:
+            r, fired, _ = _run_faulted(case, pre, {key1: f1, key2: f2}, {key1: lab1, key2: lab2}, log, out)
+            fault_runs += 1
+            out.steps += r.sim.n
+            if len(fired) < 2:
+                continue
+            out.probe('fault_pair_both_fired')
+            out.nontrivial.append(core.h64([cfg, lab1, list(f1), lab2, list(f2)]))
+            if judge(case, pre, r, fired, out, k2):
+                out.violation['sig']['faulted'] = True
+                out.extra['found_plan'] = [[key1[0], key1[1], f1[0], f1[1], lab1], [key2[0], key2[1], f2[0], f2[1], lab2]]
+                break
+    out.extra['fault_runs'] = fault_runs
+    out.extra['workloads'] = 1
+    out.sim_time = float(out.steps)
+    out.digest = log.digest()
+    return out
+
+
+def shrink(case, fails):
+    """Pin the failing fault plan first (so the case is one execution), then shrink."""
+    c = dict(case)
+    if c.get('faults') is None:
+        o = run_case(c)
+        if o.violation is not None and 'found_plan' in o.extra:
+            c2 = dict(c)
+            c2['faults'] = o.extra['found_plan']
+            if 'found_sp' in o.extra:
+                c2['second_party'] = o.extra['found_sp']
+            if fails(c2):
+                c = shrinkers.shrink_list_field(c2, 'faults', fails)
+    return _shrink_common(c, fails)
+
+
+def _shrink_common(c, fails):
+    for simple in ({'part_file': None}, {'dest_rel': False}, {'umask': 0o022}, {'buffering': -1},
+                   {'file_perms': None}, {'part_initial': None}, {'overwrite_part': False},
+                   {'overwrite': True}, {'dest_initial': None}, {'blksize': 8192}):
+        c = shrinkers.try_set(c, simple, fails)
+    c = shrinkers.shrink_list_field(c, 'body', fails)
+    return c
